@@ -11,6 +11,7 @@ mod bits_replay;
 mod symbol_replay;
 mod chain;
 mod drive;
+mod drive_models;
 mod ans_bounded;
 mod ans_seek;
 mod chain_replay;
@@ -37,6 +38,7 @@ fn main() {
             let precs: Vec<usize> = optc::<String>(&argv, "--precs").unwrap().split(',').map(|x| x.parse().unwrap()).collect();
             drive::drive_ans(w, s, &precs, seed, n as usize, &optc::<String>(&argv, "--trace").unwrap())
         }
+        "drive_models" => drive_models::drive_models(seed, n as usize, &optc::<String>(&argv, "--trace").unwrap()),
         "drive_range" => {
             let w: u32 = optc(&argv, "--w").unwrap(); let s: u32 = optc(&argv, "--s").unwrap();
             let precs: Vec<usize> = optc::<String>(&argv, "--precs").unwrap().split(',').map(|x| x.parse().unwrap()).collect();
